@@ -114,6 +114,23 @@ theorem C15_convergence_possible {cfg : Config} (hnd : cfg.voterIds.Nodup) (hne 
         (s'.nodes v).commit = (s'.nodes l).log.length ∧ (s'.nodes v).term = T) :=
   Repl.progress_possible hnd hne hr
 
+/-- **… within a number of steps that is linear in the number of voters and independent of how far
+    behind anyone is.** The continuation of `C15_convergence_possible` has at most `5·|voters| + 4`
+    steps (one voter learns a term, times out; the others grant; it becomes leader; one request and
+    one answer per other voter carry the whole log, however long; it commits; one empty request and
+    one answer per other voter carry the commit index): the statement's "bounded number of election
+    timeouts … however far behind, whether it needs log repair or a snapshot of any size", as far as
+    a model without timers can say it. -/
+theorem C15_convergence_within_linearly_many_steps {cfg : Config} (hnd : cfg.voterIds.Nodup) (hne : cfg.voterIds ≠ [])
+    {s : Repl.AState} (hr : Repl.Reachable cfg s) :
+    ∃ s' l T k, k ≤ 5 * cfg.voterIds.length + 4 ∧ Repl.ReachableIn cfg s k s' ∧ cfg.isVoter l = true ∧
+      (s'.nodes l).role = .leader ∧ (s'.nodes l).term = T ∧
+      (∀ v, cfg.isVoter v = true → (s.nodes v).term < T) ∧
+      (s'.nodes l).log = (s.nodes l).log ++ [⟨T, 0⟩] ∧
+      (∀ v, cfg.isVoter v = true → (s'.nodes v).log = (s'.nodes l).log ∧
+        (s'.nodes v).commit = (s'.nodes l).log.length ∧ (s'.nodes v).term = T) :=
+  Repl.progress_possible_in hnd hne hr
+
 /-- … and nothing that was applied anywhere is undone on the way (C01 across the continuation):
     every prefix a node had committed before is a prefix of the common log afterwards. -/
 theorem C15_convergence_keeps_committed {cfg : Config} (hnd : cfg.voterIds.Nodup) (hne : cfg.voterIds ≠ []) {s : Repl.AState}
